@@ -43,6 +43,7 @@ TARGETS = [
         (r'range_t r\(offset, length\);', 'struct range_t r; range_ctor(&r, offset, length);', 1)] + SETR[1:7] + [
         (r'r\.contains\(\*it\)', 'range_contains(&r, &S[it])', 1), (r'm_index\.erase\(it\)', 'set_erase(it)', 1)],
         marks={'count': 1, 0: dict(name='UL', frame=['it', 'G1_ERASED', 'N_ERASE'], effects={'set_erase': ['G1_ERASED', 'N_ERASE']}, pure=['range_end', 'range_contains'])}),
+    Target('range_dtor', RL, r'~Range\(\) (?=\{)', rules=[(r'cond\.notify_all\(\)', 'cv_notify_all_(this)', 0), (r'cond\.notify_one\(\)', 'cv_notify_one_(this)', 0)]),
     Target('unlock_handle', RL, r'void unlock\(LockHandle\* h\)', rules=[
         (r'SCOPED_LOCK\(m_lock\);', '/* m_lock held */;', 1), (r'(?:auto|__auto_type) it = __reinterpret_cast<iterator>\(h\);', 'int it = h;', 1), (r'm_index\.erase\(it\)', 'set_erase(it)', 1)]),
 ]
@@ -53,6 +54,7 @@ PROOFS = [
     Proof('try_lock/refuse', 'rl.c', 'h_try_lock_conflict', kind='L', min_obligations=3, backend='cadical', timeout=3600),
     Proof('unlock/range', 'unlock.c', 'h_unlock_range', kind='L', min_obligations=4, backend='cadical'),
     Proof('unlock/handle', 'unlock.c', 'h_unlock_handle', kind='L', min_obligations=2),
+    Proof('unlock/range_dtor', 'unlock.c', 'h_range_dtor', kind='L', min_obligations=1),
     Proof('adjust_range', 'rl.c', 'h_adjust', kind='L', min_obligations=4, backend='cadical', timeout=3600),
 ]
 NATIVES = [Native('native', 'native.cpp', args_quick=[20000], args_thorough=[1000000], timeout=3000, link_photon=True, cxxflags=['-fpermissive'])]
